@@ -121,7 +121,8 @@ Inductive cond :=
 | CContains (container item : operand)       (* Comparator(container, item, operator.contains): in_/contains *)
 | CAnd (a b : cond) | COr (a b : cond)
 | CNot (a : cond)                            (* a node kind the translator does not know *)
-| CTruth (o : operand).                      (* a bare attribute used as condition *)
+| CTruth (o : operand)                       (* a bare attribute used as condition *)
+| CInSet (cs : list val) (item : operand).   (* in_(item, {..}) / contains({..}, item): the container is a set / frozenset literal *)
 Record query := {
   q_the : bool;                    (* the(...) instead of an(...) *)
   q_setof : bool;                  (* set_of([sel], ...) instead of entity(sel, ...) *)
@@ -182,6 +183,10 @@ Fixpoint eval_cond (w : world) (b : binding) (c : cond) : res bool :=
   | COr p q => match eval_cond w b p with Err e => Err e | Ok true => Ok true | Ok false => eval_cond w b q end
   | CNot p => match eval_cond w b p with Err e => Err e | Ok t => Ok (negb t) end
   | CTruth o => match eval_operand w b o with Err e => Err e | Ok v => Ok (truthy v) end
+  | CInSet cs it => match eval_operand w b it with
+                    | Err e => Err e
+                    | Ok y => Ok (existsb (fun c => val_eq eq_fuel w y c) cs)
+                    end
   end.
 
 Fixpoint bindings (sc : schema) (w : world) (vars : list (Z * Z)) : list binding :=
